@@ -131,6 +131,39 @@ CLAIMED = {
             "the target sequence and nowhere else, the 4/4 default, and well-formed output. Files include sub-resolution "
             "notes, runs of 1-tick deltas, note-on velocity 0 as note-off, tracks outside every group.",
             "mido is trusted; ties at exactly half a tick are judged by the nearest-tick clause only.", "6 (C12/C13)"),
+    "C01": ("Tokeniser", "TLC model check of TokeniserSys.tla (tokenise / detokenise / annotate automata in lock-step, round trip, "
+            "duration) + its initial states and seeded random pieces over the configuration lattice run through the real "
+            "tokenise-encode-decode-detokenise + TLC trace validation",
+            "TLC explores the three automata event by event and token by token on every generated piece x configuration and "
+            "checks TokeniseSucceeds, VocabClosed, LockStep, RoundTrip and DurationRoundedUp; the as-built closing rule is a "
+            "named defect switch that TLC refutes. The same pieces and random ones (1-4 tracks, 1-6 bars, signature "
+            "changes, crossing notes, all 16 flag sets, 7 bin counts, pitch ranges, value/step sets) go through the real "
+            "code; TLC evaluates success, vocabulary membership, codec identity, notes with binned velocity per track, bar "
+            "grid, bar marks and duration; the real token stream is also compared with the reference automaton's.",
+            "Bounded model scope (<=2 notes, 2 tracks, ppqn 24); valid pieces keep every tokenised event on the even-tick grid on which greedy rest decomposition over the step sizes is total; token strings are parsed only through TokenisationPrefixes for the reference-stream diagnostic.", "5 (C01)"),
+    "C02": ("Tokeniser", "TLC model check of VocabClosed on TokeniserSys.tla for all 16 flag sets + complete dictionaries of a "
+            "configuration lattice and one witness piece per abstract vocabulary token + TLC trace validation",
+            "Per configuration the whole dictionary is dumped from the real object and TLC checks ids = 0..size-1, reported "
+            "size, both round trips and acceptance by detokenise for every entry (finite, enumerated completely); for each "
+            "abstract token of Vocab(cfg) written by TLC a witness piece forces its emission and the emitted strings must "
+            "be keys, encode, and contain the wanted token.",
+            "Bounded model scope (<=2 notes, 2 tracks, ppqn 24); valid pieces keep every tokenised event on the even-tick grid on which greedy rest decomposition over the step sizes is total; token strings are parsed only through TokenisationPrefixes for the reference-stream diagnostic.", "5 (C02)"),
+    "C03": ("Tokeniser", "TLC model check of ChunkInvariance on TokeniserSys.tla (every partition of the bars into calls, carried "
+            "state) + bars from the real bar splitter tokenised under every partition + TLC trace validation",
+            "TLC explores every partition of every whole-bar piece (1-3 bars, signature changes, empty bars) with one carried "
+            "state and checks that the concatenated stream detokenises like the single-call stream. The real code tokenises "
+            "the bars produced by sequences_split_bars (both settings) group by group with one state_dict; TLC compares "
+            "notes, bar marks, durations and signatures in force with the single call and with the bars themselves.",
+            "Bounded model scope (<=2 notes, 2 tracks, ppqn 24); valid pieces keep every tokenised event on the even-tick grid on which greedy rest decomposition over the step sizes is total; token strings are parsed only through TokenisationPrefixes for the reference-stream diagnostic.", "5 (C03)"),
+    "C19": ("Tokeniser", "TLC model check of LockStep over ALL token streams up to length 5/6 of a reduced vocabulary (product of "
+            "the detokenise and annotate automata) + the same streams, random longer ones and tokenise output run through the "
+            "real get_info + TLC trace validation against prefix-detokenisation placements",
+            "TLC checks clock, in-bar clock and capacity equality of the two automata and onset/pitch agreement after every "
+            "token for every stream (not only tokenise output: bar tokens in partly filled or overfull bars, signatures "
+            "mid-bar, unfused running values). The real get_info (with and without imputation) is compared by TLC with the "
+            "note placements obtained from detokenise on every prefix, the pitch and the circle-of-fifths position of "
+            "Theory, and for tokenise output in-bar time and monotone times.",
+            "Bounded model scope (<=2 notes, 2 tracks, ppqn 24); valid pieces keep every tokenised event on the even-tick grid on which greedy rest decomposition over the step sizes is total; token strings are parsed only through TokenisationPrefixes for the reference-stream diagnostic.", "5 (C19)"),
 }
 PENDING = {}
 props = [json.loads(l) for l in open(V / "properties.jsonl")]
